@@ -1,15 +1,25 @@
-(** C04: surface trees of the operator grammar (identifiers, prefix runs, the binary operator
-    levels, && / || chains, the conditional, explicit parentheses), their token rendering with
-    minimal parentheses under CEL's precedence table, and the AST they denote. *)
+(** C04: surface trees (identifiers and literals, prefix runs, the binary operator levels,
+    && / || chains, the conditional, explicit parentheses, field selection, indexing, member and
+    global calls, list and map literals), their token rendering with minimal parentheses under
+    CEL's precedence table, and the AST they denote. *)
 From Coq Require Import String Ascii.
-From Cel.Model Require Export Parser.
+From Cel.Model Require Export Parser FloatText.
 From Coq Require Import Arith.
 Open Scope nat_scope.
 
 (** ** Surface trees of the operator grammar, their minimal-parenthesis token rendering and
     the AST they denote *)
+Inductive slit := LInt (z : Z) | LUint (z : Z) | LBool (b : bool) | LNull.
+
 Inductive st :=
 | SId (x : str)
+| SLit (l : slit)                    (* a non-negative number, true / false, null *)
+| SSel (a : st) (f : str)            (* a.f *)
+| SIdx (a i : st)                    (* a[i] *)
+| SMCall (a : st) (f : str) (args : list st)   (* a.f(args) *)
+| SCall (f : str) (args : list st)   (* f(args) *)
+| SLst (es : list st)               (* [e1, ..., en] *)
+| SMap (kvs : list (st * st))        (* {k1: v1, ..., kn: vn} *)
 | SNot (n : nat) (a : st)            (* n + 1 '!' *)
 | SNeg (n : nat) (a : st)            (* n + 1 '-' *)
 | SMul (op : tk) (a b : st)
@@ -22,14 +32,43 @@ Inductive st :=
 
 Definition prec (t : st) : nat :=
   match t with
-  | SId _ => 7 | SNot _ _ | SNeg _ _ => 6 | SMul _ _ _ => 5 | SAdd _ _ _ => 4 | SRel _ _ _ => 3
+  | SId _ | SLit _ | SSel _ _ | SIdx _ _ | SMCall _ _ _ | SCall _ _ | SLst _ | SMap _ => 7
+  | SNot _ _ | SNeg _ _ => 6 | SMul _ _ _ => 5 | SAdd _ _ _ => 4 | SRel _ _ _ => 3
   | SAnd _ _ => 2 | SOr _ _ => 1 | SCond _ _ _ => 0 | SParen _ => 7
   end.
 
+Definition lit_tk (l : slit) : tk :=
+  match l with
+  | LInt z => TInt (nat_digits z)
+  | LUint z => TUint (nat_digits z ++ [ch "u"])
+  | LBool true => TTrue
+  | LBool false => TFalse
+  | LNull => TNull
+  end.
+Definition lit_val (l : slit) : value :=
+  match l with LInt z => VInt z | LUint z => VUInt z | LBool b => VBool b | LNull => VNull end.
+
 Fixpoint raw (t : st) : list tk :=
   let at_ (l : nat) (u : st) := if l <=? prec u then raw u else TLParen :: raw u ++ [TRParen] in
+  let commas := (fix go (l : list st) : list tk :=
+                   match l with
+                   | [] => []
+                   | x :: l' => raw x ++ match l' with [] => [] | _ => TComma :: go l' end
+                   end) in
   match t with
   | SId x => [TIdent x]
+  | SLit l => [lit_tk l]
+  | SSel a f => at_ 7 a ++ [TDot; TIdent f]
+  | SIdx a i => at_ 7 a ++ [TLBracket] ++ raw i ++ [TRBracket]
+  | SMCall a f args => at_ 7 a ++ [TDot; TIdent f; TLParen] ++ commas args ++ [TRParen]
+  | SCall f args => [TIdent f; TLParen] ++ commas args ++ [TRParen]
+  | SLst es => [TLBracket] ++ commas es ++ [TRBracket]
+  | SMap kvs => [TLBrace] ++ (fix go (l : list (st * st)) : list tk :=
+                                match l with
+                                | [] => []
+                                | (k, v) :: l' => raw k ++ [TColon] ++ raw v ++
+                                                  match l' with [] => [] | _ => TComma :: go l' end
+                                end) kvs ++ [TRBrace]
   | SNot n a => repeat TBang (S n) ++ at_ 7 a
   | SNeg n a => repeat TMinus (S n) ++ at_ 7 a
   | SMul op a b => at_ 5 a ++ [op] ++ at_ 6 b
@@ -49,8 +88,18 @@ Definition tk_at (l : nat) (u : st) : list tk :=
 Definition opname (o : option str) : str := match o with Some n => n | None => [] end.
 
 Fixpoint ast (t : st) : expr :=
+  let many := (fix go (l : list st) : list expr :=
+                 match l with [] => [] | r :: l' => ast r :: go l' end) in
   match t with
   | SId x => EIdent x
+  | SLit l => ELit (lit_val l)
+  | SSel a f => ESelect (ast a) f false
+  | SIdx a i => ECall $"_[_]" None [ast a; ast i]
+  | SMCall a f args => ECall f (Some (ast a)) (many args)
+  | SCall f args => ECall f None (many args)
+  | SLst es => EList (many es)
+  | SMap kvs => EMap ((fix go (l : list (st * st)) : list (expr * expr) :=
+                         match l with [] => [] | (k, v) :: l' => (ast k, ast v) :: go l' end) kvs)
   | SNot n a => if Nat.odd (S n) then ECall $"!_" None [ast a] else ast a
   | SNeg n a => if Nat.odd (S n) then ECall $"-_" None [ast a] else ast a
   | SMul op a b => ECall (opname (mulop_name op)) None [ast a; ast b]
@@ -64,10 +113,29 @@ Fixpoint ast (t : st) : expr :=
   | SParen a => ast a
   end.
 
+Definition wf_lit (l : slit) : bool :=
+  match l with
+  | LInt z => (0 <=? z)%Z && in_i64 z
+  | LUint z => in_u64 z
+  | _ => true
+  end.
+Definition no_macro (f : str) (recv : bool) (n : nat) : bool :=
+  match find_expander f recv n with None => true | Some _ => false end.
+
 Fixpoint wf_st (t : st) : Prop :=
+  let all := (fix go (l : list st) : Prop := match l with [] => True | r :: l' => wf_st r /\ go l' end) in
   match t with
   | SId _ => True
-  | SNot _ a | SNeg _ a | SParen a => wf_st a
+  | SLit l => wf_lit l = true
+  | SSel a _ => wf_st a
+  | SIdx a i => wf_st a /\ wf_st i
+  | SMCall a f args => no_macro f true (length args) = true /\ wf_st a /\ all args
+  | SCall f args => no_macro f false (length args) = true /\ all args
+  | SLst es => all es
+  | SMap kvs => (fix go (l : list (st * st)) : Prop :=
+                   match l with [] => True | (k, v) :: l' => wf_st k /\ wf_st v /\ go l' end) kvs
+  | SNot _ a | SParen a => wf_st a
+  | SNeg n a => wf_st a /\ (n = O -> is_number_tok (if 7 <=? prec a then raw a else TLParen :: raw a ++ [TRParen]) = false)
   | SMul op a b => mulop_name op <> None /\ wf_st a /\ wf_st b
   | SAdd op a b => addop_name op <> None /\ wf_st a /\ wf_st b
   | SRel op a b => relop_name op <> None /\ wf_st a /\ wf_st b
@@ -79,9 +147,19 @@ Fixpoint wf_st (t : st) : Prop :=
 
 (** boolean well-formedness, and token equality (for the correspondence run) *)
 Fixpoint wf_stb (t : st) : bool :=
+  let all := (fix go (l : list st) : bool := match l with [] => true | r :: l' => wf_stb r && go l' end) in
   match t with
   | SId _ => true
-  | SNot _ a | SNeg _ a | SParen a => wf_stb a
+  | SLit l => wf_lit l
+  | SSel a _ => wf_stb a
+  | SIdx a i => wf_stb a && wf_stb i
+  | SMCall a f args => no_macro f true (length args) && wf_stb a && all args
+  | SCall f args => no_macro f false (length args) && all args
+  | SLst es => all es
+  | SMap kvs => (fix go (l : list (st * st)) : bool :=
+                   match l with [] => true | (k, v) :: l' => wf_stb k && wf_stb v && go l' end) kvs
+  | SNot _ a | SParen a => wf_stb a
+  | SNeg n a => wf_stb a && (negb (Nat.eqb n 0) || negb (is_number_tok (if 7 <=? prec a then raw a else TLParen :: raw a ++ [TRParen])))
   | SMul op a b => (match mulop_name op with Some _ => true | None => false end) && wf_stb a && wf_stb b
   | SAdd op a b => (match addop_name op with Some _ => true | None => false end) && wf_stb a && wf_stb b
   | SRel op a b => (match relop_name op with Some _ => true | None => false end) && wf_stb a && wf_stb b
